@@ -345,9 +345,11 @@ pub fn cmd_sym(tier: &str, seed: u64, runs_override: Option<u64>, workers: usize
         harness: Option<String>,
         samples: Vec<Value>,
         done: u64,
+        borrowed: u64,
+        unfit: u64,
         truncated: bool,
     }
-    let acc = Mutex::new(Acc { evals: 0, steps: 0, restarts: 0, distinct: FpSet::default(), fails: vec![], harness: None, samples: vec![], done: 0, truncated: false });
+    let acc = Mutex::new(Acc { evals: 0, steps: 0, restarts: 0, distinct: FpSet::default(), fails: vec![], harness: None, samples: vec![], done: 0, borrowed: 0, unfit: 0, truncated: false });
     let mix = mix_for(11);
     std::thread::scope(|s| {
         for _ in 0..workers.max(1) {
@@ -361,6 +363,11 @@ pub fn cmd_sym(tier: &str, seed: u64, runs_override: Option<u64>, workers: usize
                 let mut samples = vec![];
                 let mut done = 0;
                 let mut truncated = false;
+                let mut borrowed = 0u64;
+                let mut unfit = 0u64;
+                let rep_mix = mix_for(5);
+                let mut gctx = Ctx::new(0);
+                let mut geq = crate::world::EqTable::default();
                 loop {
                     let idx = next.fetch_add(1, Ordering::SeqCst);
                     if idx >= runs || idx > stop_at.load(Ordering::SeqCst) {
@@ -371,6 +378,49 @@ pub fn cmd_sym(tier: &str, seed: u64, runs_override: Option<u64>, workers: usize
                         break;
                     }
                     let mut rng = Rng::new(mix_seed(seed ^ 0x5157, idx));
+                    if idx % 3 == 2 {
+                        // Borrowed game: the main line of a run of the sequential simulator under the
+                        // repetition-heavy workload of C05/C06 (shufflers, shuttlers, repeaters, long
+                        // caps; no restarts, so the history keeps growing) is re-executed on the four
+                        // replicas.  That is where actions withheld by the repetition rules are
+                        // frequent, which uniform lockstep play hardly ever reaches.
+                        let mut sw = crate::driver::Swarm::draw(&mut rng, &rep_mix, false);
+                        while sw.family == Family::Setup {
+                            sw.family = FAMILIES[rng.weighted(&rep_mix.families)];
+                        }
+                        sw.fan = 0.0;
+                        sw.fan2 = 0.0;
+                        sw.rt = 0.0;
+                        sw.dfs = 0.0;
+                        sw.cap = sw.cap.min(600);
+                        let fam = sw.family;
+                        let gstart = generate(&mut rng, fam);
+                        let start = match &gstart {
+                            Start::Diagram(t) => t.clone(),
+                            Start::Initial => continue,
+                        };
+                        let mut src = crate::driver::RandomSource::new(rng, sw);
+                        let mut gtrace = vec![];
+                        gctx.findings.clear();
+                        let _ = crate::game::guarded_execute(&mut gctx, &mut geq, &gstart, &mut src, &mut gtrace, idx);
+                        let ops: Vec<String> = gtrace.into_iter().filter(|o| !o.starts_with('?') && (!o.starts_with('!') || o == "!restart")).collect();
+                        let mut trace = vec![];
+                        let r = guarded(&start, Some(&ops), None, 0, 0.0, &mut trace, &mut evals, &mut distinct);
+                        done += 1;
+                        borrowed += 1;
+                        steps += trace.len() as u64;
+                        match r {
+                            Ok(None) => {}
+                            Ok(Some(f)) => {
+                                stop_at.fetch_min(idx, Ordering::SeqCst);
+                                fails.push((idx, start, trace, f.monitor, f.detail));
+                            }
+                            // the borrowed line did not fit the replicas (cannot happen with a
+                            // deterministic engine): not comparable, not an alarm
+                            Err(_) => unfit += 1,
+                        }
+                        continue;
+                    }
                     let fam = loop {
                         let f = FAMILIES[rng.weighted(&mix.families)];
                         if f != Family::Setup {
@@ -416,6 +466,8 @@ pub fn cmd_sym(tier: &str, seed: u64, runs_override: Option<u64>, workers: usize
                 }
                 g.samples.extend(samples);
                 g.done += done;
+                g.borrowed += borrowed;
+                g.unfit += unfit;
                 g.truncated |= truncated;
             });
         }
@@ -452,9 +504,11 @@ pub fn cmd_sym(tier: &str, seed: u64, runs_override: Option<u64>, workers: usize
         "part": "symmetry_replicas",
         "evaluations": g.evals,
         "distinct_nontrivial": g.distinct.len(),
-        "rule": "four lockstep replicas (identity, file mirror, colour swap + rank flip, both) of seeded games from parsed positions, play phase only; a case = one replica compared with the image of replica 0 (offered set incl. what repetition withholds, result, capture preview); non-trivial = distinct start positions that are not their own image under at least one symmetry",
+        "rule": "four lockstep replicas (identity, file mirror, colour swap + rank flip, both) of seeded games from parsed positions, play phase only (two runs in three choose their own actions, every third re-executes the main line of a sequential run under the repetition-heavy workload of C05/C06); a case = one replica compared with the image of replica 0 (offered set incl. what repetition withholds, result, capture preview); non-trivial = distinct start positions that are not their own image under at least one symmetry",
         "samples": g.samples,
         "runs": g.done,
+        "runs_borrowed_from_the_repetition_workload": g.borrowed,
+        "borrowed_lines_not_comparable": g.unfit,
         "runs_planned": runs,
         "truncated_by_wall_clock": g.truncated,
         "lockstep_operations": g.steps,
